@@ -62,7 +62,7 @@ def gen_decon_ops(ctx):
             s = "".join(rng.choice("abAB01_") for _ in range(rng.randrange(1, 5)))
         return s
 
-    for _ in range(250 if quick else 2500):
+    for _ in range(250 if quick else 750):
         n = rng.choice([1, 2, 3, 5, 8, 13, 30]) if rng.random() < 0.9 else rng.randrange(40, 130)
         pool = [name() for _ in range(rng.choice([1, 2, 3, 6]))]
         reqs = [rng.choice(pool) if rng.random() < 0.8 else name() for _ in range(n)]
@@ -73,7 +73,7 @@ def gen_decon_ops(ctx):
         ops.append((f"dec 1 " + " ".join(pre + [base] * n), "dec-long", None))
     words = ["tL_tag", "marshalJSON", "FOO_bar9_X_ABC", "string", "a", "A", "AB", "A1", "aB", "a_b_c", "__x", "x__", "_", "-", "9a", "a9B", "ABc", "aBC", "X_Y",
              "foo.bar", "a.FOO", "FOO", "F", "f0O", "JSON2x", "tl2Mask", "a-b", "a+B", "HTTPServer", "hTTPServer", "http_SERVER_2"]
-    for w in words + ["".join(rng.choice("abXY_019.") for _ in range(rng.randrange(1, 9))) for _ in range(150 if quick else 1500)]:
+    for w in words + ["".join(rng.choice("abXY_019.") for _ in range(rng.randrange(1, 9))) for _ in range(150 if quick else 450)]:
         ops.append((f"camel {w}", "camel", None))
         ops.append((f"upfirst {w}", "upfirst", None))
         ops.append((f"lowfirst {w}", "lowfirst", None))
@@ -105,7 +105,7 @@ def plan_units(ctx):
     rec_opts = [("plain", []), ("split", ["--split-internal"]), ("tl2random", ["--tl2WhiteList=*", "--generateRandomCode"])]
     if not quick:
         rec_opts += [("bytesrpc", ["--generateByteVersions=rs."] + B.RPC_OPTS)]
-    for i in range(2 if quick else 12):
+    for i in range(2 if quick else 6):
         mg = B.MutGen(rng)
         p = d / f"rec{i}.tl"
         p.write_text(randschema.HEADER + "\n".join(mg.recursion_positions(full=(i == 0))) + "\n")
@@ -130,7 +130,7 @@ def plan_units(ctx):
     # random well-formed schemas
     osets = B.option_sets("rs.")
     names = list(osets)
-    nrand = 4 if quick else 60
+    nrand = 4 if quick else 12
     for i in range(nrand):
         g = randschema.Gen(rng, ntypes=rng.choice([4, 6, 8] if quick else [4, 6, 8, 12, 16]))
         p = d / f"rnd{i}.tl"
@@ -257,7 +257,7 @@ def run(ctx):
     phase("corr decon")
     # ---- end to end units
     jobs = plan_units(ctx) if not berr else []
-    deadline = time.time() + (100 if quick else 3600)   # no new unit starts after this; running builds finish
+    deadline = time.time() + (100 if quick else 300)   # no new unit starts after this; running builds finish
     results = []
     lock = threading.Lock()
     stats = {"planned": len(jobs), "ran": 0, "skipped_budget": 0, "built": 0, "nobuild": 0, "rejected": 0, "rejected_with_previous_outdir": 0}
